@@ -72,11 +72,22 @@ func runC13(c *Ctx) {
 		}
 		a := x.args
 		// forward: min from the cursor, max = far end (empty trailing segment)
-		check("minKey", []string{fmt.Sprintf("%s(%s, %s)", x.minEnc, a, x.curArg)}, "!"+rev)
+		// (the "min" encoder is the plain key encoder under another name — checked below when it exists — so either may be
+		// called)
+		check("minKey", []string{fmt.Sprintf("%s(%s, %s)", x.minEnc, a, x.curArg), fmt.Sprintf("%s(%s, %s)", x.enc, a, x.curArg)}, "!"+rev)
 		check("maxKey", []string{fmt.Sprintf("%s(%s, nil)", x.maxEnc, a)}, "!"+rev)
 		// reverse: max from the cursor, min = near end
 		check("maxKey", []string{fmt.Sprintf("%s(%s, %s)", x.enc, a, x.curArg)}, rev)
-		check("minKey", []string{fmt.Sprintf("%s(%s, nil)", x.minEnc, a)}, rev)
+		check("minKey", []string{fmt.Sprintf("%s(%s, nil)", x.minEnc, a), fmt.Sprintf("%s(%s, nil)", x.enc, a)}, rev)
+		if c.P.Func(x.minEnc) != nil {
+			if mu := c.unit("C13-Q1", x.minEnc); mu != nil {
+				allArgs := "p0, p1"
+				if x.curArg == "p3" {
+					allArgs = "p0, p1, p2, p3"
+				}
+				r.ReturnTerm("C13-Q1", mu, 0, "RES("+x.enc+"("+allArgs+"), 0)", x.enc+"("+allArgs+")")
+			}
+		}
 	}
 	if u := c.unit("C13-Q1", "rockredis.(*RockDB).buildScanIterator"); u != nil {
 		r.StoreValues("C13-Q1", u, an.LocalStore("tp"), []string{"common.RangeOpen"}, 0)
